@@ -218,12 +218,24 @@ def c07_4(ctx):
 def c07_5(ctx):
     r = ctx.repo
     f = r.fn('_sort:Cmp.cmp')
-    rets = returns_of(f.node)
     ctx.count(1, f.where())
-    if not rets or N(rets[-1].value) != 'cmp(self.x, %s)' % f.params[1]:
-        ctx.fail(f, rets[-1] if rets else f.node, 'Cmp.cmp is not cmp(self.x, y)')
-    unwrap = [s for s in f.body if isinstance(s, ast.If) and N(s.test) == 'isinstance(%s, Cmp)' % f.params[1]]
-    if not unwrap or N(unwrap[0].body[0].value) != '%s.x' % f.params[1]:
+    y = f.params[1]
+    sp = sym_paths(f)
+    seen = set()
+    for p in sp:      # whatever the spelling: cmp(self.x, y.x) when y is a Cmp, cmp(self.x, y) otherwise
+        if p.term != 'return':
+            continue
+        if p.holds('isinstance(%s, Cmp)' % y, True):
+            want, k = 'cmp(self.x, %s.x)' % y, 'wrapped'
+        elif p.holds('isinstance(%s, Cmp)' % y, False):
+            want, k = 'cmp(self.x, %s)' % y, 'plain'
+        else:
+            want, k = None, None
+        seen.add(k)
+        if want is None or p.text() != want:
+            ctx.fail(f, p.node, 'Cmp.cmp returns `%s` when [%s]; expected cmp(self.x, y.x) for a Cmp operand and cmp(self.x, y) otherwise' % (
+                p.text(), ' & '.join(('' if q else 'not ') + t for t, q, _ in p.conds)))
+    if not ctx.findings and seen != {'wrapped', 'plain'}:
         ctx.fail(f, f.node, 'Cmp.cmp no longer unwraps a Cmp operand')
     for name, want in (('__lt__', -1), ('__gt__', 1)):
         f = r.fn('_sort:Cmp.%s' % name)
